@@ -227,17 +227,20 @@ def healthy_api_job(j):
     that the call needs): each request the call makes is answered by a conforming frame, so no call may fail with
     RequestFailedException / MaxRetriesException (= some conforming answer was refused) - whatever command and response
     type the library uses for it."""
-    cfg, transport = j
+    cfg, transport = j[:2]
+    mode = j[2] if len(j) > 2 else ''
     from ..configs import make_rig
     from .c17 import domain, in_scope
     OM = world.goodwe.OperationMode
-    r = make_rig(cfg, transport, fill=lambda a: 0, R=0)
+    r = make_rig(cfg, transport, fill=lambda a: 0, R=0, ka='ka' in mode)
     inv = r.inv
     out = []
     n = 0
 
     def call(name, fn, *a):
         nonlocal n
+        if 'loop-per-call' in mode:
+            r.newloop()         # every call in its own asyncio.run(), the object lives on (keep-alive on or off)
         res = r.call(fn, *a)
         n += 1
         if res[0] == 'exc' and res[1] in ('RequestFailedException', 'MaxRetriesException'):
@@ -353,13 +356,15 @@ def run(tier, seed, rep):
         for clause, cause in run_pair(cfg):
             rep.add(f"{clause}/{cfg['transport']}/ka={int(cfg['ka'])}", clause, dict(part='P', cfg=cfg), dict(cause=cause, **cfg))
     from .c17 import settings_configs
-    hjobs = [(c, tr) for c in settings_configs() for tr in (('udp', 'tcp') if c['family'] != 'ES' else ('udp',))]
+    hjobs = [(c, tr, mode) for c in settings_configs() for tr in (('udp', 'tcp') if c['family'] != 'ES' else ('udp',))
+             for mode in ('', 'ka', 'ka+loop-per-call', 'loop-per-call')]
     nh = 0
-    for (c, tr), (n, out) in zip(hjobs, pmap(healthy_api_job, hjobs)):
+    for (c, tr, mode), (n, out) in zip(hjobs, pmap(healthy_api_job, hjobs)):
         nh += n
         for name, cause in out:
-            rep.add(f"healthy-inverter-call-fails/{c['name']}/{tr}/{name}", 'conforming answers of a healthy inverter are accepted',
-                    dict(part='H', cfg=c, transport=tr), dict(cause=cause))
+            rep.add(f"healthy-inverter-call-fails/{c['name']}/{tr}/{name}" + (f'/{mode}' if mode else ''),
+                    'conforming answers of a healthy inverter are accepted',
+                    dict(part='H', cfg=c, transport=tr, mode=mode), dict(cause=cause, usage=mode or 'one loop, keep-alive off'))
     jobs = []
     counts = list(range(1, 126))
     chunk = 8
@@ -451,7 +456,7 @@ def replay(r):
         cfg['refused'] = tuple(cfg['refused'])
         if isinstance(cfg.get('firmware'), dict):
             cfg['firmware'] = bytes.fromhex(cfg['firmware']['hex'])
-        n, out = healthy_api_job((cfg, r['transport']))
+        n, out = healthy_api_job((cfg, r['transport'], r.get('mode', '')))
         return dict(calls=n, violations=out)
     if r['part'] == 'L':
         return dict(violations=run_after_lost_remainder(r['framing'], r['ca'], r['cb'], r['ka']) or [])
